@@ -886,116 +886,3 @@ Proof.
   - now apply (yields_foreign bq_idfromkey_suffixes_v0 other i Hother).
 Qed.
 
-(* ======================================================================== *)
-(* 5. every reachable state of a store enumerates exactly what is stored     *)
-(* ======================================================================== *)
-
-Definition kentry_eqb (a b : kentry) : bool :=
-  Bool.eqb (ke_deleted a) (ke_deleted b) && Bool.eqb (ke_dirty a) (ke_dirty b) &&
-  Bool.eqb (ke_vec a) (ke_vec b) && Bool.eqb (ke_code a) (ke_code b).
-Definition feqb (a b : fstate) : bool :=
-  match f_entry a, f_entry b with
-  | Some x, Some y => kentry_eqb x y
-  | None, None => true
-  | _, _ => false
-  end && Bool.eqb (f_q a) (f_q b) && Bool.eqb (f_v a) (f_v b) &&
-  Bool.eqb (f_trained a) (f_trained b) && Bool.eqb (f_live a) (f_live b).
-
-Lemma kentry_eqb_eq a b : kentry_eqb a b = true -> a = b.
-Proof.
-  unfold kentry_eqb. rewrite !andb_true_iff. intros [[[H1 H2] H3] H4].
-  apply Bool.eqb_prop in H1, H2, H3, H4. destruct a, b. cbn in *. congruence.
-Qed.
-Lemma feqb_eq a b : feqb a b = true -> a = b.
-Proof.
-  unfold feqb. rewrite !andb_true_iff. intros [[[[H0 H1] H2] H3] H4].
-  apply Bool.eqb_prop in H1, H2, H3, H4. destruct a as [ea ? ? ? ?], b as [eb ? ? ? ?]. cbn in *.
-  destruct ea as [x|], eb as [y|]; try discriminate.
-  - apply kentry_eqb_eq in H0. congruence.
-  - congruence.
-Qed.
-Lemma feqb_refl a : feqb a a = true.
-Proof.
-  unfold feqb, kentry_eqb. rewrite !Bool.eqb_reflx. destruct (f_entry a) as [x|]; [|reflexivity].
-  now rewrite !Bool.eqb_reflx.
-Qed.
-Definition fmem (s : fstate) (l : list fstate) : bool := existsb (feqb s) l.
-Fixpoint fdedup (l : list fstate) : list fstate :=
-  match l with [] => [] | x :: r => if fmem x r then fdedup r else x :: fdedup r end.
-
-(* the per-id states reachable from an empty store, by breadth-first closure under all operations *)
-Fixpoint bfs (fuel : nat) (c : kcfg) (seen frontier : list fstate) : list fstate :=
-  match fuel with
-  | O => seen
-  | S n =>
-      let next := flat_map (fun s => map (fstep c s) all_pops) frontier in
-      let new := fdedup (filter (fun s => negb (fmem s seen)) next) in
-      match new with [] => seen | _ => bfs n c (seen ++ new) new end
-  end.
-Definition reach (c : kcfg) : list fstate :=
-  bfs 64 c [fstate0 true; fstate0 false] [fstate0 true; fstate0 false].
-
-(* checked by computation, per configuration *)
-Definition cfg_ok_on (c : kcfg) (R : list fstate) : bool :=
-  fmem (fstate0 true) R && fmem (fstate0 false) R &&
-  forallb (fun s => forallb (fun o => fmem (fstep c s o) R) all_pops) R &&
-  forallb (fun s => Bool.eqb (fenum c s) (f_live s)) R.
-Definition cfg_ok (c : kcfg) : bool := cfg_ok_on c (reach c).
-
-Lemma fmem_In s l : fmem s l = true <-> In s l.
-Proof.
-  unfold fmem. rewrite existsb_exists. split.
-  - intros (y & Hy & E). apply feqb_eq in E. now subst.
-  - intros H. exists s. split; [assumption|apply feqb_refl].
-Qed.
-
-Lemma all_pops_all o : In o all_pops.
-Proof. destruct o; cbn; tauto. Qed.
-
-Lemma reach_closed c pops : cfg_ok c = true -> forall s, In s (reach c) -> In (fold_left (fstep c) pops s) (reach c).
-Proof.
-  intros Hok. unfold cfg_ok, cfg_ok_on in Hok. rewrite !andb_true_iff in Hok. destruct Hok as [[[_ _] Hcl] _].
-  rewrite forallb_forall in Hcl.
-  induction pops as [|o r IH]; intros s Hs; cbn; [assumption|]. apply IH.
-  specialize (Hcl s Hs). rewrite forallb_forall in Hcl. apply fmem_In. apply Hcl. apply all_pops_all.
-Qed.
-
-Lemma krun_proj c ops : forall s id,
-  krun c s ops id = fold_left (fstep c) (map (fun o => proj o id) ops) (s id).
-Proof.
-  induction ops as [|o r IH]; intros s id; cbn; [reflexivity|]. unfold krun in IH. now rewrite IH.
-Qed.
-
-Theorem c04_enum_reachable_generic c :
-  cfg_ok c = true ->
-  forall trained0 ops id, enumerated c (krun c (kstate0 trained0) ops) id = stored (krun c (kstate0 trained0) ops) id.
-Proof.
-  intros Hok trained0 ops id. unfold enumerated, stored. rewrite krun_proj.
-  assert (Hin : In (fold_left (fstep c) (map (fun o => proj o id) ops) (kstate0 trained0 id)) (reach c)).
-  { apply reach_closed; [assumption|]. unfold kstate0. unfold cfg_ok, cfg_ok_on in Hok. rewrite !andb_true_iff in Hok.
-    destruct Hok as [[[H1 H2] _] _]. apply fmem_In. now destruct trained0. }
-  unfold cfg_ok, cfg_ok_on in Hok. rewrite !andb_true_iff in Hok. destruct Hok as [_ Hg].
-  rewrite forallb_forall in Hg. specialize (Hg _ Hin). now apply Bool.eqb_prop in Hg.
-Qed.
-
-Lemma cfg_plain_ok : cfg_ok cfg_plain = true. Proof. vm_compute. reflexivity. Qed.
-Lemma cfg_product_ok : cfg_ok cfg_product = true. Proof. vm_compute. reflexivity. Qed.
-(* depends on the generated bq_idfromkey_suffixes: false for the pinned IdFromKey *)
-Lemma cfg_binary_ok : cfg_ok cfg_binary = true. Proof. vm_compute. reflexivity. Qed.
-Lemma cfg_binary_v0_not_ok : cfg_ok cfg_binary_v0 = false. Proof. vm_compute. reflexivity. Qed.
-
-Theorem c04_enum_reachable_lemma :
-  forall c, c = cfg_plain \/ c = cfg_product \/ c = cfg_binary ->
-  forall trained0 ops id, enumerated c (krun c (kstate0 trained0) ops) id = stored (krun c (kstate0 trained0) ops) id.
-Proof.
-  intros c [->|[->|->]]; apply c04_enum_reachable_generic;
-    [exact cfg_plain_ok|exact cfg_product_ok|exact cfg_binary_ok].
-Qed.
-
-(* pinned IdFromKey, binary quantiser with a fixed threshold: write, flush, lose the cache *)
-Theorem c04_binary_reach_refuted_lemma :
-  let s := krun cfg_binary_v0 (kstate0 true) [KSet 7; KFlush; KDropCache] in
-  stored s 7 = true /\ enumerated cfg_binary_v0 s 7 = false /\
-  (* ... while the cache was still there the point was found *)
-  enumerated cfg_binary_v0 (krun cfg_binary_v0 (kstate0 true) [KSet 7; KFlush]) 7 = true.
-Proof. vm_compute. repeat split. Qed.
